@@ -72,6 +72,25 @@ impl Reorg {
 
     wtx.restore_savepoint(&oldest_savepoint)?;
 
+    // The common ancestor is at `height - depth`. If the oldest savepoint was
+    // taken after it, the restored state still contains abandoned blocks, and
+    // rolling back to it again and again would never undo the reorg.
+    let restored_block_count = wtx
+      .open_table(HEIGHT_TO_BLOCK_HEADER)?
+      .range(0..)?
+      .next_back()
+      .transpose()?
+      .map(|(height, _header)| height.value() + 1)
+      .unwrap_or(0);
+
+    if restored_block_count > height.saturating_sub(depth) + 1 {
+      wtx.abort()?;
+      index
+        .unrecoverably_reorged
+        .store(true, atomic::Ordering::Relaxed);
+      return Err(anyhow!(reorg::Error::Unrecoverable));
+    }
+
     Index::increment_statistic(&wtx, Statistic::Commits, 1)?;
     #[cfg(feature = "verif")]
     crate::verif::point("reorg.restored", height.into())?;
